@@ -515,7 +515,13 @@ impl<'a> Sim<'a> {
         h = fnv(h, &[svc.fetching().len() as u8, self.nodes[node].wire.len() as u8]);
         self.res.state(h);
         for (t, c) in attach {
-            self.tasks[t as usize].attached.insert(c);
+            if self.tasks[t as usize].attached.insert(c) && self.tasks[t as usize].nrefs > 0 {
+                // An operator's request is a full fetch; a fetch limited to announced refs is another
+                // fetch, and its result is not the result of the operator's request.
+                let class = if self.c16_tainted { "C16/operator-request-joined-partial-fetch/after-stale-result" } else { "C16/operator-request-joined-partial-fetch" };
+                let rid = self.tasks[t as usize].rid;
+                self.res.violate(&own, "C16", class, format!("n{node}: the operator's fetch request #{c} for {} was attached to task#{t}, a fetch of {} announced ref(s) only; its result will be reported as the result of the full fetch, which is never started", self.rname(&rid), self.tasks[t as usize].nrefs));
+            }
         }
         // poll channels
         for ci in 0..self.chans.len() {
